@@ -786,7 +786,8 @@ class ValueDate(Value):
         return self.value < other.value
 
     def __repr__(self):
-        return self.value.strftime("%Y%m%d%H%M%S")
+        # (%Y is not zero padded on every platform)
+        return self.value.strftime("%Y%m%d%H%M%S").zfill(14)
 
     def type(self):
         return "date"
